@@ -1,9 +1,8 @@
 CONSTANTS Bases <- BasesAB  Filters <- FiltersPT  Paths <- PathsXY
-  MaxFl = 2  MaxHandles = 4  MaxColls = 2  MaxOps = 5  KeyIncludesFilters = TRUE  Views <- NoViews
+  MaxFl = 2  MaxHandles = 4  MaxColls = 1  MaxOps = 4  KeyIncludesFilters = TRUE  Views <- ViewsTP
 SPECIFICATION Spec
-VIEW NoHist
 INVARIANT ConfigTellsTheTruth
 INVARIANT FilesTellTheTruth
-INVARIANT CollectionsTellTheTruth
+INVARIANT ViewsShowWhatTheConfigSays
 INVARIANT NoMismatch
 CHECK_DEADLOCK FALSE
